@@ -31,7 +31,7 @@ def run(tier):
                               RULE + '; plus cases forced into the scope of the property (no budget / share range)',
                               extra_cases=no_budget_share,
                               nontrivial=lambda c, o: isinstance(o.get('geo_index'), list) and len(o['geo_index']) >= 2
-                              and not c.get('par_final', {}).get('budget_range') and not c.get('par_final', {}).get('treatment_share_range'))
+                              and not c.get('par_final', {}).get('budget_range') and not c.get('par_final', {}).get('treatment_share_range'), gen_targets=searchfam.GEN_TARGETS_ALL)
 
 
 def replay(data):
